@@ -147,6 +147,16 @@ class NameLookupRewriteVisitor(NodeTransformerBase):
         scope.add(node.arg)
         return node
 
+    def visit_arguments(self, node: ast.arguments) -> ast.AST:
+        # Default values are evaluated before the parameters are bound
+        node.defaults = [self.visit(d) for d in node.defaults]
+        node.kw_defaults = [d and self.visit(d) for d in node.kw_defaults]
+        for arg in (*node.posonlyargs, *node.args, node.vararg,
+                    *node.kwonlyargs, node.kwarg):
+            if arg is not None:
+                self.visit(arg)
+        return node
+
     def visit_Name(self, node: ast.Name) -> ast.AST:
         scope = self.scopes[-1]
         if isinstance(node.ctx, ast.Param):
